@@ -70,7 +70,8 @@ CHECKS = {
                      "paths; arbitrary histories over all 13 construction calls): per-call width/offset bookkeeping, spine = "
                      "Curve built by the same calls, outline polygons probed at decidable inside/outside samples of a centre-line "
                      "region model rebuilt from the call history (exact join geometry on the outer bisector of every joint), and "
-                     "simple paths re-loaded from GDSII/OASIS PATH records probed with the same model.",
+                     "simple paths re-loaded from GDSII/OASIS PATH records probed with the same model (outlines instead where an OASIS "
+                     "PATH record cannot hold the end type); simple paths of 8189..20000 points compared vertex by vertex after reload.",
                 note="Trusted: pbt/pathmodel.py. Undecidable samples (within band = 3 x tolerance of the boundary, ambiguous bend fits, "
                      "ill-conditioned displaced-line joints) are not used.",
                 technique="property-based testing (Hypothesis) with an independent swept-region membership oracle and a write/read differential"),
@@ -167,7 +168,7 @@ CHECKS = {
                 text="Every prefix length of every generated file (gdstk-written GDSII, independently encoded GDSII, gdstk-written "
                      "OASIS under drawn options) is fed to every reader in scope inside a forked, sanitised child with a "
                      "watchdog and a descriptor count; outcomes are judged by the table of DESIGN 6.2; repeated-call clause on "
-                     "selected prefixes. Exhaustive per file, sampled over files.",
+                     "selected prefixes; readers with an optional error_code are also run with NULL. Exhaustive per file, sampled over files.",
                 note="The full OASIS loader is outside the claim (DESIGN 6.3). Leaks of memory are not judged, descriptors are. "
                      "Files are small (0.3-5 kB) so that every byte position is cut.",
                 technique="fault injection: exhaustive truncation-point enumeration over generated files with a per-reader outcome oracle"),
@@ -175,7 +176,8 @@ CHECKS = {
                 text="Systematic boundary values (every power of 16 / every 7-bit group boundary / every direction) plus "
                      "Hypothesis-generated values and point lists through gdstk's encoders and decoders, judged by "
                      "arbitrary-precision reference codecs in both directions (gdstk bytes decoded by the reference; "
-                     "every alternative legal reference encoding decoded by gdstk; >64-bit encodings must set Overflow).",
+                     "every alternative legal reference encoding decoded by gdstk; >64-bit encodings must set Overflow). "
+                     "Every case runs on a clang build and on a g++ build of the same sources.",
                 note="Trusted: pbt/oasnum.py (from DESIGN Appendix A.2) and the 6-line GDSII real decoder. Non-minimal "
                      "integer encodings are limited to 10 bytes.",
                 technique="systematic boundary enumeration + property-based testing (Hypothesis) vs big-integer/Fraction reference codecs"),
